@@ -138,6 +138,21 @@ Proof.
   destruct HH as (_ & L1 & _ & Hq). rewrite Er1, Er0.
   apply (nth_ext _ _ 0 0); [exact L1|]. intros q _. destruct (Hq q) as [H|H]; [exact H|]. rewrite H, <- Efin, Er0. reflexivity.
 Qed.
+
+(* two transpositions of matrices with the same pattern into buffers with the same index part give the same inner indices *)
+Theorem transpose_rows_same (C0 C1 X0 X1 : csc F) :
+  transpose_no_alloc A0 C0 = Ok X0 -> rowind X0 = fin -> transpose_no_alloc A1 C1 = Ok X1 ->
+  colptr C1 = colptr C0 -> rowind C1 = rowind C0 -> length (vals C1) = length (vals C0) -> rowind X1 = rowind X0.
+Proof.
+  intros E0 Efin E1 Hc Hr Hl.
+  destruct (transpose_unfold A0 C0 X0 E0) as (cp0 & ci0 & cx0 & El0 & Er0 & Ev0 & _).
+  destruct (transpose_unfold A1 C1 X1 E1) as (cp1 & ci1 & cx1 & El1 & Er1 & Ev1 & _).
+  assert (HR : RR (colptr C0, rowind C0, vals C0) (colptr C1, rowind C1, vals C1)).
+  { cbn. rewrite Hc, Hr. split; auto. }
+  pose proof (tr_loop_rres _ _ HR) as HH. rewrite El0, El1 in HH. apply rres_ok_inv in HH.
+  destruct HH as (_ & L1 & _ & Hq). rewrite Er1, Er0.
+  apply (nth_ext _ _ 0 0); [exact L1|]. intros q _. destruct (Hq q) as [H|H]; [exact H|]. rewrite H, <- Efin, Er0. reflexivity.
+Qed.
 End Retranspose.
 
 (* the freshly allocated buffer of C = A.transpose() is well formed *)
